@@ -742,6 +742,15 @@ fn run_case(c: &Value) -> (String, usize, Value) {
             let v = c["value"].as_u64().unwrap_or(0) as u32;
             let n = c["n"].as_u64().unwrap_or(0) as usize;
             extra = json!({"cfg": cfg, "entry": entry, "v": w(v), "n": n, "works": false});
+            if cfg == "chunk_size_wide" {
+                // the deserializer takes a usize: values above 2^32 whose low half looks like a legal size
+                let hi = c["hi"].as_u64().unwrap_or(1) as usize;
+                extra["hi"] = json!(hi);
+                let mut de = ChunkDeserializer::new();
+                let r = catch_unwind(AssertUnwindSafe(|| de.set_max_chunk_size((hi << 32) | v as usize)));
+                let res = match r { Ok(Ok(())) => "ok".to_string(), Ok(Err(_)) => "err".to_string(), Err(p) => format!("panic:{}", panic_msg(p)) };
+                return (res, 0, extra);
+            }
             let (r, works) = run_cfg(cfg, entry, v, n);
             extra["works"] = json!(works);
             // the case's own buffers (payload, packet, decoded copy) are part of what is measured
@@ -1108,6 +1117,11 @@ pub fn cases(kind: &str, tier: &str, seed: u64) -> Vec<Value> {
             for entry in ["ser.set_max_chunk_size", "de.set_max_chunk_size", "server.config", "client.config", "inbound.SetChunkSize"].iter() {
                 for &x in cs.iter() {
                     v.push(json!({"t":"cfg","cfg":"chunk_size","entry":entry,"value":x}));
+                }
+            }
+            for &hi in [1u64, 2, 0x7FFF_FFFF, 0xFFFF_FFFF].iter() {
+                for &x in [0u32, 1, 128, 4096, 0x7FFFFFFF, 0x80000000, 0xFFFFFFFF].iter() {
+                    v.push(json!({"t":"cfg","cfg":"chunk_size_wide","entry":"de.set_max_chunk_size","value":x,"hi":hi}));
                 }
             }
             for entry in ["server.config", "client.config"].iter() {
